@@ -51,11 +51,11 @@ def shards(tier, seed):
         idx += 1
     # (ii) edits
     if q:
-        b = '<=2 edits from the decoding of TREE(3,2,3), <=1 edit from TREE(3,3,3) (c06m alphabet) and a VERIF_SEED-chosen quarter of TREE(4,4,3) (c06n alphabet); every top'
+        b = '<=2 edits from the decoding of TREE(3,2,3), <=1 edit from TREE(3,3,3) (c06m alphabet) and a VERIF_SEED-chosen eighth of TREE(4,4,3) (c06n alphabet); every top'
         out += T.shard_list(3, 2, 3, 'c06m', extra={'sub': 'edits', 'k': 2, 'names2': 1, 'bounds': b + '; TREE(3,2,3) also decoded from text with two-character variable names'})
         out += T.shard_list(3, 3, 3, 'c06m', extra={'sub': 'edits', 'k': 1, 'bounds': b})
         big = T.shard_list(4, 4, 3, 'c06n', extra={'sub': 'edits', 'k': 1, 'bounds': b})
-        out += big[seed % 4::4]    # rotating quarter of the largest family (each shard exhaustive)
+        out += big[seed % 8::8]    # rotating eighth of the largest family (each shard exhaustive)
     else:
         b = '<=3 edits from the decoding of TREE(3,2,3), <=2 edits from TREE(3,3,3) (c06m alphabet), <=1 edit from TREE(4,4,3) (c06n alphabet); every top; every state also as deep copy'
         out += T.shard_list(3, 2, 3, 'c06m', extra={'sub': 'edits', 'k': 3, 'names2': 1, 'bounds': b})
